@@ -29,6 +29,8 @@ structure GSt where
   actTr : List Action
   keyTr : List Code
   ext : List (Nat × Nat)
+  lastAna : List ((Sub × Code) × Rat)
+  ccZeroed : List Nat
   /-- everything sent so far on `outputEvents` / `sigs`, in order; `Out.panic` marks a Go panic -/
   out : List Out
   dead : Bool
@@ -87,23 +89,66 @@ def GSt.anaTrLookup (d : GSt) (id : Code × Bool) : (Nat × Nat) × Bool :=
   | some v => (v, true)
   | none => (default, false)
 
+/-- `analog, ok := d.config.KeyMappings[i].Analog[sub][code]` -/
+def GSt.analogLookup (d : GSt) (i : Int) (sub : Sub) (code : Code) : Analog × Bool :=
+  match d.cfg.maps[i.toNat]? with
+  | none => (default, false)
+  | some m =>
+    match alookup (sub, code) m.analog with
+    | some a => (a, true)
+    | none => (default, false)
+/-- `dz, ok := d.config.KeyMappings[i].Deadzones[sub][code]` -/
+def GSt.dzLookup (d : GSt) (i : Int) (sub : Sub) (code : Code) : Rat × Bool :=
+  match d.cfg.maps[i.toNat]? with
+  | none => (0, false)
+  | some m =>
+    match alookup (sub, code) m.dz with
+    | some z => (z, true)
+    | none => (0, false)
+/-- `dz, ok := d.config.KeyMappings[i].DefaultDeadzone[sub]` -/
+def GSt.defDzLookup (d : GSt) (i : Int) (sub : Sub) : Rat × Bool :=
+  match d.cfg.maps[i.toNat]? with
+  | none => (0, false)
+  | some m =>
+    match alookup sub m.defDz with
+    | some z => (z, true)
+    | none => (0, false)
+/-- `d.InputDevice.AbsInfos[node][code]` : (Minimum, Maximum); a missing entry is the zero value -/
+def GSt.absInfo (d : GSt) (node : String) (code : Code) : Int × Int := (alookup (node, code) d.cfg.axes).getD (0, 0)
+/-- `d.lastAnalogValue[sub][code]` (a missing entry reads as 0) -/
+def GSt.lastAnaGet (d : GSt) (sub : Sub) (code : Code) : Rat := (alookup (sub, code) d.lastAna).getD 0
+def GSt.setLastAna (d : GSt) (sub : Sub) (code : Code) (v : Rat) : GSt :=
+  { d with lastAna := ainsert (sub, code) v d.lastAna }
+/-- `d.ccZeroed[cc] = b` (the set of controller numbers whose entry is `true`) -/
+def GSt.setZeroedG (d : GSt) (cc : Int) (b : Bool) : GSt :=
+  { d with ccZeroed := if b then sinsert cc.toNat d.ccZeroed else serase cc.toNat d.ccZeroed }
+/-- `midi.PitchBendEvent(channel, value)` -/
+def pbEv (ch : Int) (v : Rat) : Out := pitchBendEvent ch.toNat v
+
 /-- `midi.NoteEvent(type, channel, note, velocity)` on `uint8` values -/
 def noteEv (ty ch note vel : Int) : Out := noteEvent ty.toNat ch.toNat note.toNat vel.toNat
 /-- `midi.ControlChangeEvent(channel, function, value)` -/
 def ccEv (ch fn v : Int) : Out := ccEvent ch.toNat fn.toNat v.toNat
+
+/-- `ev.Type()` of a MIDI-input message with first byte `a` (`midi/event.go`: channel messages are reduced to their status
+    nibble, system messages 0xF0‥0xFF and data bytes are returned as they are) -/
+def evType (a : Int) : Int := if a.toNat / 16 ≠ 15 ∧ a.toNat ≥ 128 then (a.toNat / 16 * 16 : Nat) else a
+/-- `ev.Channel()` : the low nibble of the first byte -/
+def evChannel (a : Int) : Int := (a.toNat % 16 : Nat)
 
 /-- `inmap[i] = make(map[byte]bool)` on the set-of-pairs representation of `map[byte]map[byte]bool` -/
 def extClearCh (l : List (Nat × Nat)) (i : Int) : List (Nat × Nat) := l.filter (fun p => p.1 ≠ i.toNat)
 
 /-! ### the hand-written model's state inside `GSt` -/
 
-def toG (d : Dev) : GSt :=
+def toG (d : Dev) (o : List Out := []) : GSt :=
   { cfg := d.cfg, octave := d.octave, semitone := d.semitone, channel := d.channel, velocity := d.velocity,
     mapping := d.mapping, learning := d.learning, multi := d.multi, noteTr := d.noteTr, anaTr := d.anaTr,
-    counter := d.counter, actTr := d.actTr, keyTr := d.keyTr, ext := d.ext, out := [], dead := d.dead }
+    counter := d.counter, actTr := d.actTr, keyTr := d.keyTr, ext := d.ext, lastAna := d.lastAna, ccZeroed := d.ccZeroed,
+    out := o, dead := d.dead }
 
-/-- the model's result (state, outputs) as a `GSt` -/
-def toGR (r : Dev × List Out) : GSt := { toG r.1 with out := r.2 }
+/-- the model's result (state, outputs) as a `GSt`; `o` is what had been sent before -/
+def toGR (r : Dev × List Out) (o : List Out := []) : GSt := { toG r.1 with out := o ++ r.2 }
 
 /-- `d.Multinote()` — modelled (it ranges over a map and sorts), not translated -/
 def multinoteP (g : GSt) : GSt :=
